@@ -20,5 +20,12 @@ CHECKS = {
                 "weight sums, boundary variants, permutation multiset equality.",
         "note": "tolerances: 1e-12 per monomial for computed tables, 1e-9 for 13-digit tables, 1e-7 for the 8-digit tetra order-2 table; BazantOh read as antipodally completed rule.",
     },
+    "C17": {
+        "text": "Each routine of felupe.math (det, inv incl. sym/determinant=/full_output/out=, cof, dev, sym, trace, transposes, all dot/ddot/dddot/dya/cdya modes, cross, tovoigt, von Mises, inplane, "
+                "identity, solve_nd/solve_2d wiring, rotation_matrix, linsteps) is executed on arrays whose every entry is a distinct real variable and compared entry-wise with an independent loop "
+                "implementation of the definition (Leibniz determinant, cofactors, index formulas); the polynomial/rational identities are refuted by z3 for all reals. Flags, out=None/fresh/reused "
+                "buffers, parallel=True (one schedule executed) and input immutability are covered per configuration; dims 1..3, batch shapes (1,), (2,), broadcast (2,1)x(1,2), (2,3) thorough.",
+        "note": "LAPACK solve replaced by the adjugate model (wiring checked); eig*/strain wrappers not yet covered; thread interleavings of einsumt not explored.",
+    },
 }
 NOT_APPLICABLE = {}
